@@ -420,3 +420,14 @@ func LiteralWide(neg bool) string {
 	}
 	return "18446744073709551616"
 }
+
+// Setenv sets an environment variable for the code under test (the symbolic executor keeps its
+// own table, consulted by os.LookupEnv/os.Getenv).
+func Setenv(key, val string) {
+	if err := os.Setenv(key, val); err != nil {
+		Diverge("Setenv: " + err.Error())
+	}
+}
+
+// Unsetenv removes an environment variable.
+func Unsetenv(key string) { os.Unsetenv(key) }
